@@ -3,3 +3,5 @@ import XmppVerif.Util
 import XmppVerif.Drv.Core
 import XmppVerif.Props.C17
 import XmppVerif.Drv.C17
+import XmppVerif.Props.C19
+import XmppVerif.Drv.C19
